@@ -943,6 +943,11 @@ def terms(case):
                 try:
                     e_st = float(s.stress_energy(xa, da))
                 except ValueError as e:
+                    # only the documented-but-broken shape mismatch (N-1 squared-x differences against N-2
+                    # central-difference densities) is the finding; any other ValueError is a fresh failure
+                    if 'could not be broadcast' not in str(e) or '(%d,) (%d,)' % (N - 1, N - 2) not in str(e):
+                        fails.append(Fail(key='stress_energy:ValueError', msg='stress_energy raised ValueError: %s' % e, **tag))
+                        continue
                     if not known:
                         fails.append(Fail(key='fullstress-cdiffstress-raises',
                                           msg='stress_energy (and total_energy, solve) raise for fullstress=True with '
